@@ -15,12 +15,12 @@ THEOREMS = ["C06_equ_closed_form", "C06_equ_rotation", "C06_equ_identity", "C06_
             "C06_ecl_isometry", "C06_newcomb_closed_form", "C06_newcomb_rotation", "C06_newcomb_identity",
             "C06_obliquity", "C06_p_motion_closed_form", "C06_motion_in_space_closed_form", "C06_orbital_closed_form", "C06_orbital_zero_branch",
             "C06_equ_there_and_back", "C06_ecl_there_and_back",
-            "C06_newcomb_vs_fk5", "C06_route_first_order"]
+            "C06_newcomb_vs_fk5", "C06_route_first_order", "C06_route_J2000"]
 PROOF_TIMEOUT = {"quick": 1500, "thorough": 3000}
 EXHAUSTIVE = False
 MANIFEST = {
     "category": "proof",
-    "text": "T4 (ideal real arithmetic): the regenerated bodies of precession_equatorial / precession_newcomb / precession_ecliptical / mean_obliquity are evaluated symbolically for ALL real epochs, coordinates (every declination, poles included) and proper motions to exact closed forms (every constant and sign pinned; polynomials proved equal to Meeus' by field), and the closed forms are proved to be the rotation Rz.Ry.Rz (Rz.Rx.Rz) of the proper-motion-corrected unit vector: identity at zero interval, dot products preserved exactly, invertible, stored angles in (-360,360). There-and-back: equatorial is EXACTLY the identity (the IAU 1976 reverse-trip polynomials are the exact negatives of the forward ones), ecliptical within 3.44e-7 degree (< the property's 1e-6) for epochs within 5 centuries of J2000 (mismatch polynomials bounded by interval, commutator of rotations, chord <= arc). Newcomb vs FK5 within 0.00132 degree (< 0.005) for epochs 1800-2100 (sum of three interval-bounded angle differences). Equatorial vs ecliptical route: only the first order (angular velocities at zero interval agree within 0.025 arcsec/century) is proved; the finite 1e-4 degree bound and the orbital round trip are searched on the implementation; bit-exact correspondence model vs implementation every run.",
+    "text": "T4 (ideal real arithmetic): the regenerated bodies of precession_equatorial / precession_newcomb / precession_ecliptical / mean_obliquity are evaluated symbolically for ALL real epochs, coordinates (every declination, poles included) and proper motions to exact closed forms (every constant and sign pinned; polynomials proved equal to Meeus' by field), and the closed forms are proved to be the rotation Rz.Ry.Rz (Rz.Rx.Rz) of the proper-motion-corrected unit vector: identity at zero interval, dot products preserved exactly, invertible, stored angles in (-360,360). There-and-back: equatorial is EXACTLY the identity (the IAU 1976 reverse-trip polynomials are the exact negatives of the forward ones), ecliptical within 3.44e-7 degree (< the property's 1e-6) for epochs within 5 centuries of J2000 (mismatch polynomials bounded by interval, commutator of rotations, chord <= arc). Newcomb vs FK5 within 0.00132 degree (< 0.005) for epochs 1800-2100 (sum of three interval-bounded angle differences). Equatorial vs ecliptical route: proved within 4.9e-5 degree (< 1e-4) for intervals with one end at J2000 and the other epoch within 5 centuries (rotation level), and to first order for general epochs (angular velocities at zero interval agree within 0.025 arcsec/century); the general finite bound and the orbital round trip are searched on the implementation; bit-exact correspondence model vs implementation every run.",
     "technique": "symbolic evaluation of the generated model in the real-number instance (call-by-value evaluator with characterisation lemmas for Angle(0,0,s), reduce_deg, Angle(x, radians=True)) + field + rotation algebra on unit vectors (atan2 lemmas, congruence mod 360) + bit-exact differential correspondence + property oracle on the sphere",
     "design_ref": "8/C06",
 }
@@ -42,7 +42,7 @@ CLAUSES = {
     "there and back returns the start (equatorial 1e-9 deg, ecliptical 1e-6 deg within 5 centuries of J2000)":
         "proved [ideal]: equatorial EXACTLY the start for all epochs and declinations (C06_equ_there_and_back: the reverse-trip polynomials zeta(T+t,-t), z(T+t,-t), theta(T+t,-t) are the exact negatives -z, -zeta, -theta, so the property's 1e-9 deg is purely a binary64 rounding budget; measured 9e-14 deg); ecliptical within a chord of 6e-9 = 3.44e-7 deg < 1e-6 deg for both epochs within 5 centuries of J2000 (C06_ecl_there_and_back: mismatch polynomials bounded by interval, commutator bound 2|eta'||dPi| + |eta'+eta|, chord <= arc); binary64 rounding of both: searched with the property's tolerances",
     "equatorial route agrees with the ecliptical route through the mean obliquity of each epoch to 1e-4 deg":
-        "first order proved [ideal/spec, C06_route_first_order: both routes are the identity at zero interval and their angular velocities there -- Meeus' relations eps' = eta' cos Pi, n = p sin eps + eta' sin Pi cos eps, m = p cos eps - eta' sin Pi sin eps on the three separately coded polynomial sets of the regenerated model -- agree within 0.025 / 0.010 / 0.005 arcsec per century for |T| <= 5 centuries]; the finite-interval 1e-4 deg bound is unproved (searched, measured maximum 3.35e-5 deg): it needs a certified bound of the angular-velocity mismatch over the two-dimensional (T, t) domain to about 0.005 arcsec/century in quantities of 5000 arcsec/century, and the crude |t| * sup bound (sup = 0.046 arcsec/century at T = -5, t = 10) would give 1.3e-4 deg, above the tolerance",
+        "proved for intervals with ONE END AT J2000 and the other epoch within 5 centuries [spec level, C06_route_J2000: the composed rotation Rx(eps_end) . Recl . Rx(-eps_start) and Requ move every unit vector to places within a chord of 8.5e-7 = 4.9e-5 deg < 1e-4 deg; the nine matrix entries bounded by interval with Taylor models in the one free variable; Requ/Recl/eps are what the generated routines compute by C06_equ/ecl_rotation and C06_obliquity, the conversions being Rx(-/+eps) is property C05]; for general pairs of epochs only the first order is proved [ideal/spec, C06_route_first_order: both routes are the identity at zero interval and their angular velocities there -- Meeus' relations eps' = eta' cos Pi, n = p sin eps + eta' sin Pi cos eps, m = p cos eps - eta' sin Pi sin eps on the three separately coded polynomial sets of the regenerated model -- agree within 0.025 / 0.010 / 0.005 arcsec per century for |T| <= 5 centuries]; the general finite-interval 1e-4 deg bound (both epochs arbitrary within 5 centuries) is unproved (searched, measured maximum 3.35e-5 deg): it needs a certified bound of the angular-velocity mismatch over the two-dimensional (T, t) domain to about 0.005 arcsec/century in quantities of 5000 arcsec/century, and the crude |t| * sup bound (sup = 0.046 arcsec/century at T = -5, t = 10) would give 1.3e-4 deg, above the tolerance",
     "Newcomb within 0.005 deg of FK5 for 1800-2100": "proved [ideal, C06_newcomb_vs_fk5: both epochs in JDE 2378496.5 .. 2488071.5, every declination, chord <= 2.3e-5 = 0.00132 deg < 0.005 deg: sum of the three angle differences (1.6 + 1.7 + 1.4 arcsec, interval on small-coefficient polynomials; outer rotations are isometries, chord <= arc)]; binary64: searched",
     "orbital elements to another equinox and back": "exact closed forms proved for every inclination, retrograde included, and for the zero-inclination branch [ideal, C06_orbital_closed_form, C06_orbital_zero_branch: pin every constant]; the round trip itself unproved (searched, inclinations 0..180 incl. tiny and retrograde, 1e-6 deg scaled by sin i)",
     "p_motion_equa2eclip, motion_in_space": "exact closed forms proved [ideal, C06_p_motion_closed_form, C06_motion_in_space_closed_form]; searched: finite-difference consistency with the coordinate conversion, zero-time identity, radial motion keeps the direction, vector form r0 + t*v",
@@ -52,7 +52,8 @@ CLAUSES = {
 
 def proof_files(tier):
     return ["C06_angle.v", "C06_tac.v", "C06_jde.v", "C06_equ.v", "C06_ecl.v", "C06_obl.v", "C06_aux.v", "C06_orb.v",
-            "C06_main.v", "C06_back.v", "C06_cmp.v", "C06.v"]
+            "C06_main.v", "C06_back.v", "C06_cmp.v",
+            "C06_route_from.v", "C06_route_to.v", "C06_route.v", "C06.v"]
 
 
 # ----------------------------------------------------------------------------- generators
